@@ -214,6 +214,28 @@ def _dtype_for(t, case):
     return env.native_dtype(ns, case["width"])
 
 
+def _check_own_jacobian(case, ctx, t, z64, x_ref, lj_ref, lo, hi, tag):
+    """The fitted (affine + elementwise bounded) map is diagonal, so log|det dx/dz| = sum_i log|dx_i/dz_i|: the log-Jacobian the transform reports
+    (and the reference above adopts) is compared with central differences of the transform's own inverse map in float64. Rows where a difference
+    is not resolvable (saturated tails) are skipped; this is what notices a log-Jacobian left over from an earlier fit."""
+    e64 = np.finfo(np.float64).eps
+    h = 1e-5 * (1.0 + np.abs(z64))
+    dt = _dtype_for(t, case)
+    xp_, _ = t.inverse(t.xp.asarray(z64 + h, dtype=dt))
+    xm_, _ = t.inverse(t.xp.asarray(z64 - h, dtype=dt))
+    dx = env.to_np(xp_).astype(np.float64) - env.to_np(xm_).astype(np.float64)
+    scale = np.abs(lo) + np.abs(hi) + np.abs(x_ref)
+    with np.errstate(all="ignore"):
+        ok = np.isfinite(dx).all(-1) & (np.abs(dx) > 1e9 * e64 * scale).all(-1) & np.isfinite(lj_ref) & np.isfinite(z64).all(-1)
+        lj_fd = np.log(np.abs(dx) / (2 * h)).sum(-1)
+    for j in np.flatnonzero(ok):
+        if abs(lj_fd[j] - lj_ref[j]) > 1e-3 * (1.0 + abs(lj_ref[j])) * z64.shape[1]:
+            ctx.fail(f"{tag}own-jacobian", f"the preconditioning map reports log|dx/dz| = {lj_ref[j]!r} at z={z64[j].tolist()}; central differences of "
+                                           f"its own inverse map give {lj_fd[j]!r}", case, index=int(j))
+            break
+    return int(ok.sum())
+
+
 def _check_batch(case, ctx, sampler, z64, val, beta, rec, lo, hi, is_smc, tag=""):
     """Compare the values handed to the kernel for batch z with the reference. Returns (nontrivial_point_present)."""
     eps = refmath.eps_of(case["width"])
@@ -239,6 +261,8 @@ def _check_batch(case, ctx, sampler, z64, val, beta, rec, lo, hi, is_smc, tag=""
         xr, ljr = t.inverse(zi)
         x_ref, lj_ref = env.to_np(xr).astype(np.float64), env.to_np(ljr).astype(np.float64)
         cond = np.zeros(n)
+        if case["pre"] != "flow" and case["width"] == "float64" and not case["periodic_dims"]:
+            _check_own_jacobian(case, ctx, t, z64, x_ref, lj_ref, lo, hi, tag)
     w = hi - lo
     t_x = 64 * eps * (np.abs(lo) + np.abs(hi) + w) * (1 + (np.abs(z64) if case["pre"] in ("none", "periodic") else 0))
     for k in need:
@@ -304,6 +328,11 @@ def run_case(case, ctx):
     w = hi - lo
     g = np.random.default_rng(case["fit_seed"])
     x_fit = lo + w * g.uniform(0.05, 0.95, size=(24, case["d"]))
+    if "affine" in case["pre"] and case["fit_seed"] % 2 == 0:
+        # the map is fitted anew at every SMC iteration: a first fit on a population of another location and spread precedes the one that counts
+        x_fit0 = lo + w * (0.5 + (g.uniform(0.05, 0.95, size=(24, case["d"])) - 0.5) * 0.1)
+        sampler.fit_preconditioning_transform(xp.asarray(x_fit0, dtype=dt))
+        labels.append("refitted")
     sampler.fit_preconditioning_transform(xp.asarray(x_fit, dtype=dt))
     z64 = _points(case, sampler, lo, hi, xp, dt)
     if case["sampler"] in ("emcee_smc", "minipcn", "emcee"):
